@@ -7,13 +7,23 @@ use crate::pgc::{self, PgcatConfig, ServerDef};
 use crate::proto;
 use crate::sqllex::Tag;
 use crate::wire::{self, BackendSpec, Env};
+#[cfg(feature = "lib")]
 use pgcat::pool::ConnectionPool;
 use proptest::prelude::*;
 use serde::{Deserialize, Serialize};
 use std::time::{Duration, Instant};
 
 pub fn check(tier: Tier, seed: u64, replay: (Option<&str>, Option<&str>)) -> Vec<PartReport> {
-    crate::run_parts!(tier, seed, replay, [LibPart, WirePart])
+    #[cfg(feature = "lib")]
+    {
+        crate::run_parts!(tier, seed, replay, [LibPart, WirePart])
+    }
+    #[cfg(not(feature = "lib"))]
+    {
+        let mut v = vec![crate::engine::lib_unavailable("C16", "lib")];
+        v.extend(crate::run_parts!(tier, seed, replay, [WirePart]));
+        v
+    }
 }
 
 // ------------------------------------------------------------------------------ lib part
@@ -29,12 +39,14 @@ pub struct LibCase {
     pub second_round: bool,
 }
 
+#[cfg(feature = "lib")]
 pub struct LibPart;
 
 thread_local! {
     static RT: tokio::runtime::Runtime = tokio::runtime::Builder::new_multi_thread().worker_threads(2).enable_all().build().unwrap();
 }
 
+#[cfg(feature = "lib")]
 impl Part for LibPart {
     type Case = LibCase;
     fn prop(&self) -> &'static str {
